@@ -97,6 +97,9 @@ def correspond(ctx):
     for i in range(npairs):
         qp = rng.random() < 0.35
         if i % 6 == 5: pr = PR.planted_sparse_lp(rng, qp)          # larger sparse componentwise problems with equality constraints
+        elif i % 6 == 2 and not qp:
+            # semidefinite programs with more variables than diagonal entries of the 's' blocks (an order-k block gives k(k+1)/2 rows)
+            k_ = rng.choice([2, 3]); pr = PR.planted_conelp(rng, 'optimal', n=rng.randint(k_ + 1, k_ * (k_ + 1) // 2), dims={'l': 0, 'q': [], 's': [k_]}, p=0)
         else: pr = PR.planted_conelp(rng, 'optimal', P_rank=(rng.randint(0, 3) if qp else None))
         c, G, h, A, b, P = PR.to_cvx(cvxopt, pr)
         dims = pr.dims
@@ -178,7 +181,7 @@ def correspond(ctx):
             if qp: variants.append(('qp-wrapper', lambda: solve(solvers.qp, P, c, G, h, A, b), 1.0))
             else:
                 variants.append(('lp-wrapper', lambda: solve(solvers.lp, c, G, h, A, b), 1.0))
-                variants.append(('lp-glpk', lambda: solve(solvers.lp, c, G, h, A, b, solver='glpk', options={'glpk': {'msg_lev': 'GLP_MSG_OFF'}}), 1.0))
+                variants.append(('lp-glpk', lambda: solve(solvers.lp, c, G, h, A, b, solver='glpk', options={'glpk': {'msg_lev': 'GLP_MSG_OFF', 'tm_lim': 5000}}), 1.0))
         elif not qp and not dims['s']:
             L = dims['l']; offs = L
             Gq, hq = [], []
